@@ -293,7 +293,8 @@ func H_C16_files() {
 // concatenation of all texts) unless something fails, in which case the error is
 // delivered and the input ends.
 func H_C16_modes() {
-	texts := []string{"1 2", "[3]\n", "", "{\"a\":4}\n5", "6 x 7", "line1\nline2", "\"s\""}
+	// the last text has a line longer than bufio's 4096-byte buffer
+	texts := []string{"1 2", "[3]\n", "", "{\"a\":4}\n5", "6 x 7", "line1\nline2", "\"s\"", "\"" + strings.Repeat("x", 5000) + "\"\n8"}
 	raw, slurp, stream := nondetBool(), nondetBool(), nondetBool()
 	if raw && stream {
 		return // -R wins in createInputIter; the combination adds nothing
